@@ -3,7 +3,8 @@
    and r_parse_nexus_stream (with both reader variant flags at their current value, true). *)
 From Coq Require Import ZArith List Bool Lia.
 From Coq Require String. Import String.StringSyntax.
-From DV Require Import Model.PyPrims Model.C13Model Model.C13GenPrims Gen.Routes Proofs.C13GenStmts.
+From DV Require Import Model.PyPrims Model.C13Model Model.C13GenPrims Gen.Routes Proofs.C13GenStmts
+  Proofs.C13GenObjects Proofs.C13GenWf Proofs.C13GenTaxa.
 Import ListNotations.
 
 Section S.
@@ -89,21 +90,28 @@ Proof.
   destruct (get_tns upper c k g link) as [[[i k2] g2]| |]; reflexivity.
 Qed.
 
+Notation wfr := (wfr T c).
+Notation wfs := (wfs c).
+
 Lemma g_trees_loop_eq : forall fuel (s : gst) token link nsO mapO tbO title,
-  map_ok nsO mapO ->
+  map_ok nsO mapO -> wfr s -> nsok (r_k s) nsO ->
   (do r <- g_parse_trees_block_loop1 T lower upper parse_tree set_label add_comments c tlf fuel s
              token link nsO mapO tbO title ;;
    Ok (fst (fst (fst (fst (fst (fst r)))))))
   = r_trees_loop T lower upper parse_tree set_label add_comments true c tlf fuel s
       (mkLoc token link nsO (option_map snd mapO) title) tbO.
 Proof.
-  induction fuel as [|f IH]; intros s token link nsO mapO tbO title MO; [reflexivity|].
-  destruct s as [k g tls reg].
+  induction fuel as [|f IH]; intros s token link nsO mapO tbO title MO WF NO; [reflexivity|].
+  destruct s as [k g tls reg]. unfold C13GenWf.wfr in WF. cbn [r_k r_g] in WF, NO.
   cbn [g_parse_trees_block_loop1 r_trees_loop].
   unfold tk_is_eof. sim. rewrite guard_eq. cbn [l_token].
   destruct (loop_guard (k_z k) token); [|reflexivity].
   unfold tk_next_token_ucase, tk_lift, zstep. sim.
   destruct (next_token_ucase upper (k_z k)) as [z1| |]; sim; try reflexivity.
+  assert (W1 : wfs (set_z k z1) g) by (apply (wfs_mono c k g); [exact WF | apply Nat.le_refl | reflexivity]).
+  assert (N1 : nsok (set_z k z1) nsO) by exact NO.
+  assert (WZ : forall kk gg z, wfs kk gg -> wfs (set_z kk z) gg)
+    by (intros kk gg z0 Hw; apply (wfs_mono c kk gg); [exact Hw | apply Nat.le_refl | reflexivity]).
   change (k_z (set_z k z1)) with z1.
   change (o_eq (z_cur z1) (s2z "LINK")) with (otok_is (z_cur z1) K_LINK).
   change (o_eq (z_cur z1) (s2z "TITLE")) with (otok_is (z_cur z1) K_TITLE).
@@ -116,22 +124,27 @@ Proof.
     destruct (g_parse_link_statement T upper (S f) (mkRs (set_z k z1) g tls reg)) as [[l2 s']| |];
       destruct (parse_link upper true (S f) z1) as [[lt z2]| |]; sim; intros L; try discriminate L;
       try (injection L as ->; reflexivity); try reflexivity.
-    injection L as -> ->. cbn [l_ns l_map l_title]. apply IH. exact MO. }
+    injection L as -> ->. cbn [l_ns l_map l_title]. apply IH; [exact MO | apply WZ; exact W1 | exact N1]. }
   destruct (otok_is (z_cur z1) K_TITLE).
   { rewrite g_parse_title_statement_eq. sim. change (k_z (set_z k z1)) with z1.
     destruct (parse_title upper z1) as [[bt z2]| |]; sim; try reflexivity.
-    cbn [l_ns l_map l_title l_link]. apply IH. exact MO. }
+    cbn [l_ns l_map l_title l_link]. apply IH; [exact MO | apply WZ; exact W1 | exact N1]. }
   destruct (otok_is (z_cur z1) K_TRANSLATE).
   { match goal with |- (do r23 <- (do r22 <- (do r21 <- (do r7 <- ?G ;; @?K1 r7) ;; @?K2 r21) ;; @?K3 r22) ;; @?K4 r23) = _ =>
       transitivity (do r7 <- G ;; do r23 <- (do r22 <- (do r21 <- K1 r7 ;; K2 r21) ;; K3 r22) ;; K4 r23);
       [destruct G; reflexivity|] end.
     rewrite (get_ns_eq (S f) (set_z k z1) g tls reg link nsO _ _ token (option_map snd mapO) title).
     destruct (loc_get_ns upper c (set_z k z1) g (mkLoc token link nsO (option_map snd mapO) title))
-      as [[[ns k2] g2]| |]; sim; try reflexivity.
+      as [[[ns k2] g2]| |] eqn:GN; sim; try reflexivity.
+    destruct (loc_get_ns_wf upper c (set_z k z1) g (mkLoc token link nsO (option_map snd mapO) title) ns k2 g2 W1 N1 GN) as [W2 [V2 _]].
+    rewrite (g_parse_translate_eq_at T lower k2 g2 tls reg ns V2 (S f)).
     unfold ifc_parse_translate. sim. cbn [on_get].
-    destruct (parse_translate lower (S f) k2 ns) as [[m k3]| |]; sim; try reflexivity.
+    destruct (parse_translate lower (S f) k2 ns) as [[m k3]| |] eqn:PT; sim; try reflexivity.
+    apply parse_translate_len in PT.
     cbn [l_link l_title]. apply (IH (mkRs k3 g2 tls reg) (Some []) link (Some ns) (Some (ns, m)) tbO title).
-    reflexivity. }
+    - reflexivity.
+    - apply (wfs_mono c k2 g2); [exact W2 | cbn [r_k]; rewrite PT; apply Nat.le_refl | reflexivity].
+    - apply nsok_some. cbn [r_k]. rewrite PT. exact V2. }
   destruct (otok_is (z_cur z1) K_TREE).
   { match goal with |- (do r23 <- (do r22 <- (do r21 <- (do r20 <- (do r18 <- ?G ;; @?K1 r18) ;; @?K0 r20) ;; @?K2 r21) ;; @?K3 r22) ;; @?K4 r23) = _ =>
       transitivity (do r18 <- G ;; do r23 <- (do r22 <- (do r21 <- (do r20 <- K1 r18 ;; K0 r20) ;; K2 r21) ;; K3 r22) ;; K4 r23);
@@ -139,6 +152,7 @@ Proof.
     rewrite (get_ns_eq (S f) (set_z k z1) g tls reg link nsO _ _ token (option_map snd mapO) title).
     destruct (loc_get_ns upper c (set_z k z1) g (mkLoc token link nsO (option_map snd mapO) title))
       as [[[ns k2] g2]| |] eqn:GN; sim; try reflexivity.
+    destruct (loc_get_ns_wf upper c (set_z k z1) g (mkLoc token link nsO (option_map snd mapO) title) ns k2 g2 W1 N1 GN) as [W2 [V2 _]].
     cbn [l_map l_title l_link].
     (* the mapper *)
     assert (MM : exists m, (mapO = None \/ mapO = Some (ns, m)) /\
@@ -188,20 +202,26 @@ Proof.
         destruct (is_nil (z_com (k_z k2))); sim;
           rewrite g_tree_loop_eq;
           match goal with |- context [r_tree_loop T upper parse_tree set_label add_comments (S f) ?kk ?tt ns i m] =>
-            destruct (r_tree_loop T upper parse_tree set_label add_comments (S f) kk tt ns i m) as [[[[k6 tls6] m1] tk]| |] end;
-          sim; try reflexivity; apply (IH (mkRs k6 g2 tls6 reg) _ link (Some ns) (Some (ns, m1)) (Some i) title); reflexivity.
+            destruct (r_tree_loop T upper parse_tree set_label add_comments (S f) kk tt ns i m) as [[[[k6 tls6] m1] tk]| |] eqn:RT end;
+          sim; try reflexivity; apply r_tree_loop_len in RT; rewrite set_z_len in RT;
+          apply (IH (mkRs k6 g2 tls6 reg) _ link (Some ns) (Some (ns, m1)) (Some i) title);
+          first [ reflexivity | apply nsok_some; cbn [r_k]; rewrite RT; exact V2
+                | apply (wfs_mono c k2 g2); [exact W2 | cbn [r_k]; rewrite RT; apply Nat.le_refl | reflexivity] ].
       - rewrite g_new_tree_list_eq. unfold ifc_new_tree_list. sim.
         destruct (new_tree_list T tlf tls reg title) as [[i tls4] reg4]. sim.
         unfold ifc_comments_for_treelist. sim.
         destruct (is_nil (z_com (k_z k2))); sim;
           rewrite g_tree_loop_eq;
           match goal with |- context [r_tree_loop T upper parse_tree set_label add_comments (S f) ?kk ?tt ns i m] =>
-            destruct (r_tree_loop T upper parse_tree set_label add_comments (S f) kk tt ns i m) as [[[[k6 tls6] m1] tk]| |] end;
-          sim; try reflexivity; apply (IH (mkRs k6 g2 tls6 reg4) _ link (Some ns) (Some (ns, m1)) (Some i) title); reflexivity. }
+            destruct (r_tree_loop T upper parse_tree set_label add_comments (S f) kk tt ns i m) as [[[[k6 tls6] m1] tk]| |] eqn:RT end;
+          sim; try reflexivity; apply r_tree_loop_len in RT; rewrite set_z_len in RT;
+          apply (IH (mkRs k6 g2 tls6 reg4) _ link (Some ns) (Some (ns, m1)) (Some i) title);
+          first [ reflexivity | apply nsok_some; cbn [r_k]; rewrite RT; exact V2
+                | apply (wfs_mono c k2 g2); [exact W2 | cbn [r_k]; rewrite RT; apply Nat.le_refl | reflexivity] ]. }
     destruct M0 as [-> | ->]; cbn [om_is_none]; [rewrite g_get_taxon_symbol_mapper_eq; unfold ifc_get_taxon_symbol_mapper; sim; cbn [on_get]; cbn [option_map] in M1; rewrite M1|];
       exact (TAIL tbO eq_refl). }
   destruct (otok_is (z_cur z1) K_BEGIN); sim; [reflexivity|].
-  apply IH. exact MO.
+  apply IH; [exact MO | exact W1 | exact N1].
 Qed.
 
 Notation RTB := (r_parse_trees_block T lower upper parse_tree set_label add_comments true c tlf et).
@@ -222,10 +242,11 @@ Qed.
 
 (* ---- _parse_trees_block ---- *)
 Theorem g_parse_trees_block_eq : forall fuel (s : gst),
+  wfr s ->
   g_parse_trees_block T lower upper parse_tree set_label add_comments c tlf et fuel s
   = (do s' <- RTB fuel s ;; Ok (tt, s')).
 Proof.
-  intros fuel [k g tls reg]. unfold g_parse_trees_block, r_parse_trees_block, tk_cast_ucase. sim.
+  intros fuel [k g tls reg] WF. unfold C13GenWf.wfr in WF. cbn [r_k r_g] in WF. unfold g_parse_trees_block, r_parse_trees_block, tk_cast_ucase. sim.
   set (z0 := cast_ucase upper (k_z k)).
   change (o_eq (z_cur z0) (s2z "TREES")) with (tok_is z0 K_TREES).
   destruct (negb (tok_is z0 K_TREES)); sim; [reflexivity|].
@@ -236,7 +257,10 @@ Proof.
     destruct (consume_to_end_of_block upper fuel (z_cur z0) z0); reflexivity. }
   unfold tk_skip_to_semicolon, zstep. sim. change (k_z (set_z k z0)) with z0.
   destruct (skip_to_semicolon fuel z0) as [z1| |]; sim; try reflexivity.
-  pose proof (g_trees_loop_eq fuel (mkRs (set_z (set_z k z0) z1) g tls reg) (z_cur z0) None None None None None I) as L.
+  assert (W1 : wfr (mkRs (set_z (set_z k z0) z1) g tls reg))
+    by (unfold C13GenWf.wfr; cbn [r_k r_g]; apply (wfs_mono c k g); [exact WF | apply Nat.le_refl | reflexivity]).
+  pose proof (g_trees_loop_eq fuel (mkRs (set_z (set_z k z0) z1) g tls reg) (z_cur z0) None None None None None I W1
+                (nsok_none _)) as L.
   cbn [option_map] in L.
   rewrite <- L. clear L.
   destruct (g_parse_trees_block_loop1 T lower upper parse_tree set_label add_comments c tlf fuel
@@ -264,10 +288,12 @@ Qed.
 Notation RBL := (r_blocks_loop T lower upper parse_tree set_label add_comments true c tlf et true).
 
 Lemma g_blocks_loop_eq : forall fuel (s : gst) tok,
+  wfr s ->
   (do r <- g_parse_nexus_stream_loop1 T lower upper parse_tree set_label add_comments c tlf et fuel s tok ;; Ok (fst r))
   = RBL fuel s.
 Proof.
-  induction fuel as [|f IH]; intros [k g tls reg] tok; [reflexivity|].
+  induction fuel as [|f IH]; intros [k g tls reg] tok WF; [reflexivity|].
+  unfold C13GenWf.wfr in WF. cbn [r_k r_g] in WF.
   cbn [g_parse_nexus_stream_loop1 r_blocks_loop]. unfold tk_is_eof. sim.
   destruct (negb (z_eof (k_z k))); [|reflexivity].
   unfold block_head, zstep, tk_next_token_ucase, tk_lift. sim.
@@ -283,6 +309,10 @@ Proof.
   set (k4 := set_z (set_z (set_z (set_z k z1) z2) (clear_comments z2)) z4).
   change (set_z (set_z (set_z k z2) (clear_comments z2)) z4) with k4.
   change (k_z k4) with z4.
+  assert (W4 : wfs k4 g) by (apply (wfs_mono c k g); [exact WF | apply Nat.le_refl | reflexivity]).
+  assert (W4r : wfr (mkRs k4 g tls reg)) by exact W4.
+  assert (WK : forall z, wfr (mkRs (set_z k4 z) g tls reg))
+    by (intros z0; unfold C13GenWf.wfr; cbn [r_k r_g]; apply (wfs_mono c k4 g); [exact W4 | apply Nat.le_refl | reflexivity]).
   change (o_eq (z_cur z4) (s2z "TAXA")) with (otok_is (z_cur z4) K_TAXA).
   change (o_eq (z_cur z4) (s2z "CHARACTERS")) with (otok_is (z_cur z4) K_CHARACTERS).
   change (o_eq (z_cur z4) (s2z "DATA")) with (otok_is (z_cur z4) K_DATA).
@@ -291,24 +321,26 @@ Proof.
   change (o_eq (z_cur z4) (s2z "SETS") || o_eq (z_cur z4) (s2z "ASSUMPTIONS") || o_eq (z_cur z4) (s2z "CODONS"))
     with (is_sets_kw (z_cur z4)).
   destruct (otok_is (z_cur z4) K_TAXA).
-  { rewrite g_parse_taxa_block_eq. unfold ifc_parse_taxa_block. sim.
-    destruct (parse_taxa_block lower upper c (S f) k4 g) as [[k5 g5]| |]; sim; try reflexivity. apply IH. }
+  { rewrite g_parse_taxa_block_eq by exact W4r. unfold ifc_parse_taxa_block. sim.
+    destruct (parse_taxa_block lower upper c (S f) k4 g) as [[k5 g5]| |] eqn:PB; sim; try reflexivity. apply IH.
+    exact (parse_taxa_block_wf lower upper c _ _ _ _ _ W4 PB). }
   destruct (otok_is (z_cur z4) K_CHARACTERS || otok_is (z_cur z4) K_DATA).
   { rewrite g_parse_characters_data_block_eq. sim. change (k_z k4) with z4.
     destruct (negb (tok_is (cast_ucase upper z4) K_CHARACTERS || tok_is (cast_ucase upper z4) K_DATA)); [reflexivity|].
     unfold zstep. sim. change (k_z (set_z k4 (cast_ucase upper z4))) with (cast_ucase upper z4).
     destruct (consume_to_end_of_block upper (S f) (z_cur (cast_ucase upper z4)) (cast_ucase upper z4)) as [z5| |];
-      sim; try reflexivity. apply IH. }
+      sim; try reflexivity. apply IH. apply (WK z5). }
   destruct (otok_is (z_cur z4) K_TREES).
-  { rewrite g_parse_trees_block_eq.
-    destruct (RTB (S f) (mkRs k4 g tls reg)) as [s5| |]; sim; try reflexivity. apply IH. }
+  { rewrite g_parse_trees_block_eq by exact W4r.
+    destruct (RTB (S f) (mkRs k4 g tls reg)) as [s5| |] eqn:TB; sim; try reflexivity. apply IH.
+    exact (r_trees_block_wf T lower upper parse_tree set_label add_comments true c tlf et _ _ _ W4r TB). }
   destruct (is_sets_kw (z_cur z4)).
   { rewrite !bind_assoc.
     rewrite (consume_then _ (S f) (mkRs k4 g tls reg) (z_cur z4) _
                (fun s' => do r <- g_parse_nexus_stream_loop1 T lower upper parse_tree set_label add_comments c tlf et f s' (z_cur z4) ;; Ok (fst r)));
       [|intros t s'; reflexivity].
     unfold zstep. sim. change (k_z k4) with z4.
-    destruct (consume_to_end_of_block upper (S f) (z_cur z4) z4) as [z5| |]; sim; try reflexivity. apply IH. }
+    destruct (consume_to_end_of_block upper (S f) (z_cur z4) z4) as [z5| |]; sim; try reflexivity. apply IH. apply (WK z5). }
   destruct (otok_is (z_cur z4) K_BEGIN); sim; [reflexivity|].
   rewrite !bind_assoc.
   pose proof (g_consume_to_end_of_block_eq T upper (S f) (mkRs k4 g tls reg) (z_cur z4)) as L. revert L.
@@ -316,21 +348,24 @@ Proof.
   destruct (GCON (S f) (mkRs k4 g tls reg) (z_cur z4)) as [[t s']| |];
     destruct (consume_to_end_of_block upper (S f) (z_cur z4) z4) as [z5| |]; sim; intros L;
     try discriminate L; try (injection L as ->; reflexivity); try reflexivity.
-  injection L as ->. apply IH.
+  injection L as ->. apply IH. apply (WK z5).
 Qed.
 
 Theorem g_parse_nexus_stream_eq : forall fuel (s : gst),
+  wfr s ->
   g_parse_nexus_stream T lower upper parse_tree set_label add_comments c tlf et fuel s tt
   = (do s' <- r_parse_nexus_stream T lower upper parse_tree set_label add_comments true c tlf et true fuel s ;;
      Ok (tt, s')).
 Proof.
-  intros fuel [k g tls reg]. unfold g_parse_nexus_stream, r_parse_nexus_stream, ifc_open_stream, tk_require_next_token, tk_lift, zstep.
+  intros fuel [k g tls reg] WF. unfold C13GenWf.wfr in WF. cbn [r_k r_g] in WF.
+  unfold g_parse_nexus_stream, r_parse_nexus_stream, ifc_open_stream, tk_require_next_token, tk_lift, zstep.
   sim.
   destruct (require_next_token (k_z k)) as [z1| |] eqn:R; sim; try reflexivity.
   change (k_z (set_z k z1)) with z1. rewrite (require_some _ _ R). cbn [o_upper o_eq otok_is].
   change (s2z "#NEXUS") with K_NEXUS.
   destruct (negb (str_eqb (upper (cur_text z1)) K_NEXUS)); sim; [reflexivity|].
-  rewrite <- (g_blocks_loop_eq fuel (mkRs (set_z k z1) g tls reg) (Some (cur_text z1))).
+  rewrite <- (g_blocks_loop_eq fuel (mkRs (set_z k z1) g tls reg) (Some (cur_text z1)))
+    by (unfold C13GenWf.wfr; cbn [r_k r_g]; apply (wfs_mono c k g); [exact WF | apply Nat.le_refl | reflexivity]).
   destruct (g_parse_nexus_stream_loop1 T lower upper parse_tree set_label add_comments c tlf et fuel
               (mkRs (set_z k z1) g tls reg) (Some (cur_text z1))) as [[s' t']| |]; reflexivity.
 Qed.
